@@ -10,7 +10,8 @@ PROP = {'streams': [('c13', 2000, 60000)],
  'theorems': ['table_sound', 'pinterp_sound_partial', 'callDRT_every', 'drt_of_canon', 'pinterp_sound_subst', 'pinterp_sound_partial2',
               'pinterpSoundFull_needs_cover', 'reauthorize_eq_fresh', 'reauthorize_eq_fresh_frag', 'reauthorize_eq_fresh_frag2',
               'pinterp_sound_store', 'pinterp_sound_store_reauth', 'pinterp_sound_store_reauth_direct', 'second_round_needed', 'direct_unknown_one_round',
-              'missing_unbound_counterexample', 'partial_definite_sound', 'partial_authorization_sound'],
+              'missing_unbound_counterexample', 'partial_definite_sound', 'partial_authorization_sound', 'restricted_eval_sound',
+              'concretize_entry_gives_conc', 'context_substitute_gives_completes'],
  'assumptions': ["error classes are not compared between residual evaluation and concrete evaluation (the property says 'errors')",
                  'unknowns created by a partial store for missing entities are substituted by the entity itself; the completed store is the full '
                  'store',
